@@ -157,6 +157,13 @@ func crashStepTerm(st Step, cas uint64) Term {
 		return C("SPutDDoc", S(st.Coll), S(st.DDoc), L(vts...))
 	case "delddoc":
 		return C("SDelDDoc", S(st.Coll), S(st.DDoc))
+	case "view":
+		vp := st.VP
+		if vp == nil {
+			vp = &ViewParams{}
+		}
+		_, vpT := viewParams(vp)
+		return C("SView", S(st.Coll), S(st.DDoc), S(st.View), vpT)
 	}
 	panic("crashStepTerm: unsupported step " + st.Kind)
 }
@@ -227,15 +234,23 @@ func runCrashChild(cfg runCfg, emit func(Case)) error {
 			_ = h.CreateDataStore(ctxBg, dsName(st.Coll))
 		case "drop":
 			_ = h.DropDataStore(dsName(st.Coll))
-		case "putddoc", "delddoc":
+		case "putddoc", "delddoc", "view":
 			col, err := k.coll(0, st.Coll)
 			if err != nil {
 				return err
 			}
-			if st.Kind == "putddoc" {
+			switch st.Kind {
+			case "putddoc":
 				_ = col.PutDDoc(ctxBg, st.DDoc, ddocOf(st.Views))
-			} else {
+			case "delddoc":
 				_ = col.DeleteDDoc(st.DDoc)
+			default:
+				vp := st.VP
+				if vp == nil {
+					vp = &ViewParams{}
+				}
+				params, _ := viewParams(vp)
+				_, _ = col.View(ctxBg, st.DDoc, st.View, params) // updates the index (unless stale=ok); the rows are not compared here
 			}
 		}
 		atomic.StoreInt32(&curStep, 0)
@@ -352,7 +367,18 @@ func execCrash(in crashInput, scratch string) (Case, error) {
 		dds, _ := col.GetDDocs()
 		for dn, dd := range dds {
 			for vn := range dd.Views {
-				ddocs = append(ddocs, cn+"/"+dn+"/"+vn)
+				// what a non-stale query of the view answers in the fresh process
+				line := cn + "/" + dn + "/" + vn + "="
+				if res, e := col.View(ctxBg, dn, vn, map[string]any{}); e == nil {
+					for _, r := range res.Rows {
+						kb, _ := json.Marshal(r.Key)
+						vb, _ := json.Marshal(r.Value)
+						line += r.ID + "|" + string(kb) + "|" + string(vb) + ";"
+					}
+				} else {
+					line += "ERROR " + e.Error()
+				}
+				ddocs = append(ddocs, line)
 			}
 		}
 	}
@@ -396,7 +422,7 @@ func genCrash(r *rand.Rand) crashInput {
 	in := crashInput{MaxDoc: kin.MaxDoc}
 	for _, st := range kin.Ops {
 		switch st.Kind {
-		case "kv", "purge", "create", "drop", "putddoc", "delddoc":
+		case "kv", "purge", "create", "drop", "putddoc", "delddoc", "view":
 			if st.Kind == "kv" && st.Op != nil && st.Op.Exp > 0 && st.Op.Exp <= 2592000 {
 				st.Op.Exp = 0 // no relative expiries: the child's wall clock is not the model's
 			}
@@ -434,9 +460,26 @@ func genCrash(r *rand.Rand) crashInput {
 			i = len(in.Ops) - 1
 		case x == 1 && len(multi) > 0:
 			i = multi[r.Intn(len(multi))]
+		case x == 2:
+			// an indexed view, then a WithMeta write with a CAS below what is indexed: the write and the invalidation
+			// of the index must survive (or be lost) together
+			cn := "_default._default"
+			clk := kin.Ops[len(kin.Ops)-1].Clock + 2
+			key := pick(r, kvKeys)
+			in.Ops = append(in.Ops,
+				Step{Kind: "putddoc", Coll: cn, DDoc: "dd", Views: []ViewDef{{Name: "v0", Map: pick(r, []int{0, 1, 3, 5})}}, Clock: clk},
+				Step{Kind: "kv", Coll: cn, Key: key, Op: &KOp{Kind: "Set", Val: sp(pick(r, []string{`{"a":1}`, `{"a":2,"b":3}`}))}, Clock: clk + 1},
+				Step{Kind: "view", Coll: cn, DDoc: "dd", View: "v0", VP: &ViewParams{}, Clock: clk + 2})
+			if r.Intn(2) == 0 {
+				in.Ops = append(in.Ops, Step{Kind: "kv", Coll: cn, Key: key, Op: &KOp{Kind: "SetWithMeta", CasMode: "current", NewCas: 7000 + uint64(r.Intn(100)), Val: sp(`{"a":7}`), IsJSON: true}, Clock: clk + 3})
+			} else {
+				in.Ops = append(in.Ops, Step{Kind: "kv", Coll: cn, Key: key, Op: &KOp{Kind: "DeleteWithMeta", CasMode: "current", NewCas: 7000 + uint64(r.Intn(100))}, Clock: clk + 3})
+			}
+			i = len(in.Ops) - 1
 		}
 		in.KillLast = true
-		in.KillNth = 1 + r.Intn(3)
+		in.KillPoint = pick(r, []string{"txn.begin", "txn.precommit", "txn.committed", "txn.committed", "cas.beforeSetLastCas", "cas.beforePost"})
+		in.KillNth = pick(r, []int{1, 1, 2, 3})
 		in.Ops = in.Ops[:i+1]
 	}
 	return in
